@@ -1,7 +1,7 @@
 (** Hand transliteration of the parts of [lightning/src/chain/package.rs] that walk the package's
     inputs ([PackageTemplate::get_height_timer], [PackageTemplate::package_locktime]); the closure
-    [timer_for_target_conf] and all constants are the rs2v-generated ones ([Gen/FeeBump.v],
-    [Gen/ConstsFee.v]). No proofs in this file.
+    [timer_for_target_conf] and all constants are the rs2v-generated ones ([Gen/Package.v],
+    [Gen/Consts.v]). No proofs in this file.
 
     An input is abstracted to the variant of [PackageSolvingData] and the one number the two
     functions read from it:
@@ -9,7 +9,7 @@
     - [HolderHTLCTimeout e]: [HolderHTLCOutput] with [preimage = None], [outp.cltv_expiry = e];
     - [HolderHTLCPreimage]: [HolderHTLCOutput] with [preimage = Some _] ([outp.cltv_expiry = 0],
       by construction in [HolderHTLCOutput::build]). *)
-Require Import LdkV.Prim.U64 LdkV.Gen.ConstsFee LdkV.Gen.FeeBump.
+Require Import LdkV.Prim.U64 LdkV.Gen.Consts LdkV.Gen.Package.
 Open Scope Z_scope.
 
 Inductive pinput : Type :=
